@@ -191,6 +191,12 @@ class Source:
                     pos.append(("hed-id-changed", f"tag {nm}", on_node(i, changed), ("Tags", d)))
         for i, n, d, p in ph_nodes:
             pname = p.findtext("name") + "/#"
+
+            def dup_placeholder(root, node, i=i):
+                parent = self.nodes(root)[i][2]
+                parent.append(copy.deepcopy(node))
+                return parent.findtext("name") + "/#"
+            pos.append(("duplicate-node", f"placeholder of {pname}", on_node(i, dup_placeholder), ("Tags#", d)))
             if attr(n, "unitClass") is not None:
                 pos.append(("dangling-unit-class", f"unitClass of {pname}",
                             on_node(i, lambda r, node, pn=pname: (set_attr(node, "unitClass", "zzUnits"), pn)[1]), ("Tags#", d)))
